@@ -43,8 +43,15 @@ class OptionsEval:
         if isinstance(e, ast.Dict):
             ks = [const_str(k) if k is not None else None for k in e.keys]
             return None if any(k is None for k in ks) else ks
-        if isinstance(e, ast.Call) and isinstance(e.func, ast.Name) and e.func.id in ("frozenset", "set", "tuple", "list") and len(e.args) == 1:
+        if isinstance(e, ast.Call) and isinstance(e.func, ast.Name) and e.func.id in ("frozenset", "set", "tuple", "list", "sorted") and len(e.args) == 1 and not e.keywords:
             return self.consts_of(e.args[0], depth + 1)
+        if isinstance(e, (ast.GeneratorExp, ast.ListComp, ast.SetComp)) and len(e.generators) == 1 and not e.generators[0].ifs and isinstance(e.generators[0].target, ast.Name):
+            # one column of a constant table: `row.name for row in TABLE` / `row[0] for row in TABLE` / `name for name, _ in TABLE`
+            rows = self._table_rows(e.generators[0].iter)
+            if rows is None:
+                return None
+            ks = [const_str(v) if v is not None else None for v in (self._column(e.elt, e.generators[0].target.id, r) for r in rows)]
+            return None if any(k is None for k in ks) else ks
         if isinstance(e, ast.Call) and isinstance(e.func, ast.Attribute) and e.func.attr == "keys" and not e.args:
             return self.consts_of(e.func.value, depth + 1)
         if isinstance(e, ast.Call) and isinstance(e.func, ast.Attribute) and e.func.attr == "values" and not e.args:
@@ -85,6 +92,36 @@ class OptionsEval:
                 for c in self.C.repo.mro(ci):
                     if e.attr in c.class_attrs:
                         return self.consts_of(c.class_attrs[e.attr], depth + 1)
+        return None
+
+    def _table_rows(self, it: ast.expr, depth: int = 0) -> list[ast.expr] | None:
+        """the rows of a constant table given as a tuple / list literal (directly, through a local bound once or a module-level name)"""
+        M = self.M
+        if depth > 4:
+            return None
+        if isinstance(it, (ast.Tuple, ast.List)) and it.elts and not any(isinstance(x, ast.Starred) for x in it.elts):
+            return list(it.elts)
+        if isinstance(it, ast.Name):
+            v = M.single_value(it.id)
+            if v is None and not M.binds.get(it.id):
+                v = self.C.draw.module.constants.get(it.id)
+            return self._table_rows(v, depth + 1) if v is not None else None
+        return None
+
+    def _column(self, elt: ast.expr, var: str, row: ast.expr) -> ast.expr | None:
+        from .c17_view import record_fields_of
+
+        if isinstance(elt, ast.Name) and elt.id == var:
+            return row
+        rec = record_fields_of(self.C.repo, self.C.draw.module, row)
+        if isinstance(elt, ast.Attribute) and isinstance(elt.value, ast.Name) and elt.value.id == var and rec is not None:
+            return rec.get(elt.attr)
+        if isinstance(elt, ast.Subscript) and isinstance(elt.value, ast.Name) and elt.value.id == var and isinstance(elt.slice, ast.Constant) and isinstance(elt.slice.value, int):
+            i = elt.slice.value
+            if isinstance(row, (ast.Tuple, ast.List)) and 0 <= i < len(row.elts):
+                return row.elts[i]
+            if rec is not None and 0 <= i < len(rec["#order"]):
+                return rec[rec["#order"][i]]
         return None
 
     # ------------------------------------------------------------------ evaluation
